@@ -51,3 +51,41 @@ Proof.
     congruence.
 Qed.
 End FLoss.
+
+(* ---------- supervised loss of a first-order formula ---------- *)
+Lemma fsq_nonneg x : 0 <= fsq x.
+Proof. unfold fsq. destruct (Qlt_le_dec x 0); nra. Qed.
+Lemma fsq_zero x : fsq x == 0 -> x == 0.
+Proof. unfold fsq. intros H. destruct (Qlt_le_dec x 0); nra. Qed.
+
+Lemma f_labelled_in s i labs g l : In (g, l) (f_labelled s i labs) <-> In (g, l) labs /\ tmem (ftab s i) g = true.
+Proof. unfold f_labelled. rewrite filter_In. cbn [fst]. tauto. Qed.
+
+Theorem f_supervised_loss_spec s i labs v : f_supervised_loss s i labs = Some v ->
+  0 <= v /\
+  (v == 0 <-> forall g l, In (g, l) labs -> tmem (ftab s i) g = true -> bnd_eq (fget s i g) l).
+Proof.
+  unfold f_supervised_loss. destruct (f_labelled s i labs) as [|x L] eqn:EL; [discriminate|]. intros H. inversion H; subst v. clear H.
+  set (n := 2 * inject_Z (Z.of_nat (length (x :: L)))).
+  assert (Hn : 0 < n).
+  { unfold n. cbn [length]. rewrite Nat2Z.inj_succ. unfold Z.succ. rewrite inject_Z_plus.
+    assert (0 <= inject_Z (Z.of_nat (length L))) by (change 0 with (inject_Z 0); rewrite <- Zle_Qle; apply Nat2Z.is_nonneg).
+    change (inject_Z 1) with 1. lra. }
+  set (term := fun gb : gnd * bnd => fsq (lo (fget s i (fst gb)) - lo (snd gb)) + fsq (hi (fget s i (fst gb)) - hi (snd gb))).
+  assert (T0 : forall gb, 0 <= term gb).
+  { intros gb. unfold term. pose proof (fsq_nonneg (lo (fget s i (fst gb)) - lo (snd gb))). pose proof (fsq_nonneg (hi (fget s i (fst gb)) - hi (snd gb))). lra. }
+  assert (S0 : 0 <= f_sse s i labs) by (unfold f_sse; apply qsum_map_nonneg; intros gb _; apply T0).
+  split; [apply Qle_shift_div_l; [exact Hn | lra]|].
+  assert (Z : f_sse s i labs / n == 0 <-> f_sse s i labs == 0).
+  { split; intros E.
+    - assert (X : f_sse s i labs == f_sse s i labs / n * n) by (field; lra). rewrite X, E. ring.
+    - rewrite E. field. lra. }
+  etransitivity; [exact Z|]. unfold f_sse. fold term. rewrite qsum_map_zero_iff by (intros gb _; apply T0). split.
+  - intros A g l Hin Hm. assert (Hx : In (g, l) (f_labelled s i labs)) by (apply f_labelled_in; split; assumption).
+    specialize (A (g, l) Hx). unfold term in A. cbn [fst snd] in A.
+    pose proof (fsq_nonneg (lo (fget s i g) - lo l)) as N1. pose proof (fsq_nonneg (hi (fget s i g) - hi l)) as N2.
+    assert (E1 : fsq (lo (fget s i g) - lo l) == 0) by lra. assert (E2 : fsq (hi (fget s i g) - hi l) == 0) by lra.
+    apply fsq_zero in E1. apply fsq_zero in E2. unfold bnd_eq. split; lra.
+  - intros A [g l] Hx. apply f_labelled_in in Hx. destruct Hx as [Hin Hm]. destruct (A g l Hin Hm) as [E1 E2].
+    unfold term, fsq. cbn [fst snd]. rewrite E1, E2. ring.
+Qed.
